@@ -101,7 +101,7 @@ def run(ctx):
                consts(vals, 3), props, env={"VERIF_NESTCMP": "1"})
     # lists of 2^16 and more elements (sort, push_back after it, reverse)
     from . import p_big
-    p_big.big_phase(ctx, [f"{kind[0]}:70000", f"{kind[0]}:1100000"] if ctx.quick else [f"{kind[0]}:70000", f"{kind[0]}:400000", f"{kind[0]}:1100000"])
+    p_big.big_phase(ctx, [f"{kind[0]}:70000", f"{kind[0]}:400000"] if ctx.quick else [f"{kind[0]}:70000", f"{kind[0]}:400000", f"{kind[0]}:1100000"])
     ctx.assumptions += [
         f"TLC and the TLA+ text of the sequence contract in {kind[1]}Ops.tla are trusted",
         "the driver reads head/tail/next/prev links and sizes from the real structs (public headers)",
